@@ -34,7 +34,7 @@ macro "split_all" : tactic => `(tactic| ((repeat' split) <;> simp_all))
 theorem getContext_ok {c : Cand} {f : Facts} (h : getContext c f = .ok ()) :
     c.b.h ≠ 0 ∧ (c.b.h = 1 → c.b.phz = true) ∧ (c.b.h ≠ 1 → c.b.phz = false) ∧
     c.b.maz = false ∧ f.maOn = true ∧ f.store = true := by
-  simp only [getContext, heightChecks, firstErr_append, firstErr_cons, firstErr_nil, chk_ok, and_true] at h
+  simp only [getContext, getContextWith, heightChecks, firstErr_append, firstErr_cons, firstErr_nil, chk_ok, and_true] at h
   obtain ⟨⟨h1, h2, h3⟩, h4, h5, h6⟩ := h
   refine ⟨by simpa using h1, ?_, ?_, h4, by simpa using h5, ?_⟩
   · intro e; simpa [e] using h2
